@@ -44,13 +44,30 @@ def pad_grid(rows, pad):
     return "\n\n" + "\n".join("        " + r + "  " for r in rows) + "\n    \n"
 
 
+SNAP = []        # (name, caller's object handed to a constructor, deep copy taken before the call)
+SHARED_VI = []   # one ValueIteration object reused over all problems of the process
+
+
+def snap(name, obj):
+    import copy
+    if isinstance(obj, (list, dict)):
+        SNAP.append((name, obj, copy.deepcopy(obj)))
+    return obj
+
+
 def build(case, decoy=False):
     from fractions import Fraction as _F
     ints = case.get("ints", False)
+    np32 = case.get("np32", False)
 
-    def fl(s):          # shadows build.fl: integral parameters as python ints when the case asks for it
+    def fl(s):          # shadows build.fl: integral parameters as python ints / numpy float32 scalars when the case asks
         f = _F(s)
-        return int(f) if (ints and f.denominator == 1) else float(f)
+        if ints and f.denominator == 1:
+            return int(f)
+        if np32:
+            import numpy as np
+            return np.float32(float(f))
+        return float(f)
     k = case["kind"]
     if decoy:           # same class, different numbers: mirrored layout (used to poison class-level caches)
         case = dict(case)
@@ -70,6 +87,10 @@ def build(case, decoy=False):
         if case["feature_rewards"] is not None:
             fr = {f: fl(r) for f, r in case["feature_rewards"].items()}
             kw["feature_rewards"] = list(fr.items()) if case.get("frew_form") == "pairs" else fr
+        if not decoy:
+            snap("tile_array", tiles)
+            for kk in ("absorbing_features", "wall_features", "initial_features", "feature_rewards"):
+                snap(kk, kw.get(kk))
         m = GridWorld(tiles, **kw)
         return m, (lambda s: [s['x'], s['y']]), (lambda a: [a['dx'], a['dy']]), None
     if k == "windy":
@@ -81,6 +102,8 @@ def build(case, decoy=False):
         for key in ("start_features", "goal_features", "wall_features"):
             if case.get(key) is not None:
                 kw[key] = case[key]
+        if not decoy:
+            snap("feature_rewards", kw.get("feature_rewards"))
         m = WindyGridWorld(pad_grid(case["rows"], case.get("pad")), **kw)
         return m, (lambda s: [s.x, s.y]), (lambda a: [a.dx, a.dy]), None
     if k == "cliff":
@@ -108,9 +131,33 @@ def build(case, decoy=False):
     raise ValueError("unknown kind " + k)
 
 
+def dump_plain(m, es, ea):
+    """state list, per-state rows and initial distribution of a freshly built object (raises on any error)"""
+    sl = list(m.state_list)
+    rows = []
+    for s in sl:
+        acts = list(m.actions(s))
+        rows.append({"abs": bool(m.is_absorbing(s)), "actions": [ea(a) for a in acts],
+                     "next": [[[es(ns), num(p), num(m.reward(s, a, ns)) if p > 0 else None]
+                               for ns, p in m.next_state_dist(s, a).items()] for a in acts]})
+    init = [[es(s), num(p)] for s, p in m.initial_state_dist().items()]
+    return [es(s) for s in sl], rows, init
+
+
+def shared_snapshot():
+    """module / class level objects msdm hands out to every caller"""
+    import copy
+    from msdm.domains.gridworld import mdp as gwm
+    from msdm.domains.loadunload import LoadUnload
+    return copy.deepcopy([dict(gwm.TERMINALSTATE), gwm.TERMINALDIST.value, list(LoadUnload.action_list),
+                          list(LoadUnload.observation_list)])
+
+
 def one(case, pl):
     import numpy as np
     res = {}
+    del SNAP[:]
+    shared0 = shared_snapshot()
     if case.get("decoy"):
         try:
             dm = build(case, decoy=True)[0]
@@ -209,6 +256,43 @@ def one(case, pl):
             om = m.observation_matrix
             out["obs_shape"] = list(om.shape)
             out["obs_normalised"] = bool(np.all(np.abs(om.sum(-1) - 1) < 1e-9))
+        # exact agreement of the arrays with the functions (no entry dropped, however small)
+        al = list(m.action_list)
+        mism = []
+        npos = 0
+        for si, s in enumerate(sl):
+            for a in m.actions(s):
+                ai = al.index(a)
+                exp = {}
+                for ns, p in m.next_state_dist(s, a).items():
+                    if p > 0:
+                        exp[ns] = exp.get(ns, 0) + p
+                for ns, p in exp.items():
+                    npos += 1
+                    nsi = sl.index(ns)
+                    if float(tm[si, ai, nsi]) != float(p) or float(rm[si, ai, nsi]) != float(m.reward(s, a, ns)):
+                        mism.append(["transition/reward", es(s), ea(a), es(ns), num(p), num(float(tm[si, ai, nsi])),
+                                     num(float(rm[si, ai, nsi]))])
+        if int(np.count_nonzero(tm)) != npos:
+            mism.append(["nonzero-count", int(np.count_nonzero(tm)), npos])
+        i0 = {}
+        for s, p in m.initial_state_dist().items():
+            i0[s] = p
+        for si, s in enumerate(sl):
+            if float(m.initial_state_vec[si]) != float(i0.get(s, 0)):
+                mism.append(["initial", es(s), num(float(m.initial_state_vec[si]))])
+        if eo is not None:
+            ol = list(m.observation_list)
+            for ai, a in enumerate(al):
+                for nsi, ns in enumerate(sl):
+                    exp = {o: p for o, p in m.observation_dist(a, ns).items()}
+                    for oi, o in enumerate(ol):
+                        if float(om[ai, nsi, oi]) != float(exp.get(o, 0)):
+                            mism.append(["observation", ea(a), es(ns), eo(o), num(float(om[ai, nsi, oi]))])
+                    if any(p > 0 and o not in ol for o, p in exp.items()):
+                        mism.append(["observation-not-listed", ea(a), es(ns)])
+        out["arrays_match"] = not mism
+        out["arrays_mismatch"] = mism[:3]
         return out
     r = guarded(f_arrays)
     if "error" in r:
@@ -220,7 +304,12 @@ def one(case, pl):
     if case.get("plan", True):
         def f_plan():
             from msdm.algorithms.valueiteration import ValueIteration
-            pr = ValueIteration().plan_on(m)
+            if case.get("shared_planner"):
+                if not SHARED_VI:
+                    SHARED_VI.append(ValueIteration())
+                pr = SHARED_VI[0].plan_on(m)
+            else:
+                pr = ValueIteration().plan_on(m)
             vals = [float(pr.state_value[s]) for s in sl]
             return {"converged": bool(pr.converged), "iterations": int(pr.iterations),
                     "finite": bool(np.isfinite(vals).all()) and bool(np.isfinite(pr.initial_value)),
@@ -230,7 +319,23 @@ def one(case, pl):
             stage_error["plan"] = r["error"]
         else:
             res["plan"] = r
-    # --- object reuse: the same object asked again after its arrays were built and it was planned on
+    # --- the same problem constructed a second time in this process, with unrelated constructions in between
+    if case.get("rebuild") is not None and "next" not in stage_error:
+        def f_rebuild():
+            for _ in range(int(case["rebuild"])):
+                try:
+                    dm = build(case, decoy=True)[0]
+                    dm.transition_matrix
+                except BaseException as e:
+                    if isinstance(e, (KeyboardInterrupt, SystemExit)):
+                        raise
+            m2, es2, ea2, _ = build(case)
+            sl2, rows2, init2 = dump_plain(m2, es2, ea2)
+            return sl2 == res["state_list"] and rows2 == rows and init2 == res.get("init")
+        r = guarded(f_rebuild)
+        res["rebuild_same"] = r if isinstance(r, bool) else r["error"]
+    # --- object reuse: the same object asked again after its arrays were built, it was planned on, and a second
+    # object of the same problem was built and queried
     def f_requery():
         for s, row in zip(sl, rows):
             if "error" in row:
@@ -248,6 +353,11 @@ def one(case, pl):
         return [es(s) for s in m.state_list] == res["state_list"]
     r = guarded(f_requery)
     res["requery_same"] = r if isinstance(r, bool) else r["error"]
+    # --- caller's objects and msdm's shared module / class level objects must be left as they were
+    mutated = [name for name, obj, cp in SNAP if obj != cp]
+    if shared_snapshot() != shared0:
+        mutated.append("msdm-shared-objects(TERMINALSTATE/TERMINALDIST/LoadUnload.action_list/observation_list)")
+    res["mutated"] = mutated
     return res
 
 
